@@ -47,6 +47,7 @@ THEOREMS = [
     "HedVerif.Units.parse_scientific",
     "HedVerif.Units.parse_sign",
     "HedVerif.Units.parse_double_sign",
+    "HedVerif.C11.parse_decimal_rat",
 ]
 BUDGET = {"quick": 900, "thorough": 3600}
 NUMS_OK = ["3", "-3", "+3", "3.5", ".5", "3.", "1e3", "1E-3", "0", "007", "12.25e+2"]
